@@ -148,7 +148,8 @@ def _read_back(path, cats, cat, scheme, meta):
 
 
 def _legal(s):
-    return all(c not in "/=" for c in s)
+    # '/' and '=' are excluded by the property's statement; NUL cannot occur in a path on this platform
+    return all(c not in "/=\x00" for c in s)
 
 
 def h_hive_str(a: str, b: str) -> bool:
@@ -191,29 +192,28 @@ def replay_h_hive_str_rest(a, b):
     return _replay_keys([a, b], "hive")
 
 
-INTS = [-120, -11, -1, 0, 7, 10, 99, 100, 2147483648]
+INTS = [-120, -11, -1, 0, 7, 10, 99, 100, 2147483648,
+        9007199254740993, 9223372036854775807, -9223372036854775808]      # beyond 2^53; the int64 extremes
 
 
 def h_hive_int(ia: int, ib: int) -> bool:
     """
-    pre: ia != ib and 0 <= ia < 9 and 0 <= ib < 9
+    pre: ia != ib and 0 <= ia < 12 and 0 <= ib < 12
     post: __return__
     """
-    # integer keys of every digit count / sign (chosen by symbolic index from a table: decimal rendering of a
-    # symbolic integer is outside what CrossHair decides)
-    a, b = INTS[ia], INTS[ib]
-    saved = util.np
-    util.np = _NPu
-    try:
-        paths, opened, dirs = _written_paths(["k"], [a, b], True)
-        meta = {"k": META["int"]}
-        scheme, cats = api.paths_to_cats(paths, meta)
-        if scheme != "hive" or sorted(cats["k"]) != sorted([a, b]) or len(set(paths)) != 2:
-            return False
-        va, vb = _read_back(paths[0], cats, "k", scheme, meta), _read_back(paths[1], cats, "k", scheme, meta)
-        return va == a and vb == b and isinstance(va, int)
-    finally:
-        util.np = saved
+    # integer keys of every digit count / sign and the ends of the int64 range (chosen by symbolic index from a table:
+    # decimal rendering of a symbolic integer is outside what CrossHair decides).  Every value is concrete on each
+    # path (the table index is realised: the solver enumerates the 132 index pairs), so the real numpy does the
+    # text -> int64 conversion here (no stub).
+    from crosshair import realize
+    a, b = INTS[realize(ia)], INTS[realize(ib)]
+    paths, opened, dirs = _written_paths(["k"], [a, b], True)
+    meta = {"k": META["int"]}
+    scheme, cats = api.paths_to_cats(paths, meta)
+    if scheme != "hive" or sorted(int(x) for x in cats["k"]) != sorted([a, b]) or len(set(paths)) != 2:
+        return False
+    va, vb = _read_back(paths[0], cats, "k", scheme, meta), _read_back(paths[1], cats, "k", scheme, meta)
+    return int(va) == a and int(vb) == b and not isinstance(va, (float, str))
 
 
 def replay_h_hive_int(ia, ib):
@@ -252,8 +252,19 @@ def replay_h_hive_bool_and_two_columns(x, i_n, s):
     d = tempfile.mkdtemp(prefix="c08-")
     try:
         dn = os.path.join(d, "ds")
-        fastparquet.write(dn, df, file_scheme="hive", partition_on=["p", "q", "r"])
-        out = fastparquet.ParquetFile(dn).to_pandas()
+        try:
+            fastparquet.write(dn, df, file_scheme="hive", partition_on=["p", "q", "r"])
+        except Exception as ex:
+            return None, "keys cannot be written on this platform: %s" % type(ex).__name__
+        try:
+            out = fastparquet.ParquetFile(dn).to_pandas()
+        except Exception as ex:
+            return True, "keys (p=%r, q=%r, r=%r) written, dataset cannot be read back: %s: %s" % (
+                x, n, s, type(ex).__name__, str(ex)[:80])
+        missing = [c for c in ("p", "q", "r") if c not in out.columns]
+        if missing:
+            return True, "keys (p=%r, q=%r, r=%r): partition column(s) %r missing from the read (columns %r)" % (
+                x, n, s, missing, list(out.columns))
         ok = (len(out) == 2 and all(bool(a) == x for a in out["p"]) and all(int(a) == n for a in out["q"]) and
               all(str(a) == s for a in out["r"]))
         if not ok:
